@@ -8,6 +8,7 @@ import copy
 import sys
 import threading
 
+from hgmon import beh as beh_mod
 from hgmon import core, gen, ref, rt
 from hgmon.build import build_program
 
@@ -18,7 +19,10 @@ RULE = (
     "bound mutable objects; histories of 2-8 runs: same runner, fresh runner, sync then async, runs of other graphs in "
     "between, values passed partly as keyword arguments; 2-3 concurrent async runs sharing one runner under the "
     "controlled scheduler (bodies of different runs interleaved at every quiescent point); thread stress: 6 threads "
-    "driving shared and private SyncRunners with a 10 microsecond switch interval. Oracle: every run's result equals "
+    "driving shared and private SyncRunners with a 10 microsecond switch interval; graphs that differ only in "
+    "configuration (entry points / selection on one structure) run one after the other on one runner instance vs on "
+    "fresh runners; a mapping node whose inner graph binds a mutable value while the caller passes its own (equal or "
+    "different) object for that input. Oracle: every run's result equals "
     "the isolated expectation (default objects start fresh); function __defaults__ deep-equal to their snapshot; the "
     "caller's input dict has the same keys and the very same value objects; a bound object reaches the node as the "
     "very object that was bound; no value tagged for run A occurs in the arguments of run B. Non-trivial: >= 2 runs "
@@ -302,6 +306,98 @@ def thread_stress(ctx, rounds):
     ctx.case({"threads": 6, "rounds": rounds}, True)
 
 
+def entry_variants(ctx, i):
+    """Graphs that differ only in configuration (entry points, selection, bindings) share their structure hash: run
+    one after the other on ONE runner instance, each must behave as on a fresh runner."""
+    from hypergraph import AsyncRunner, SyncRunner
+
+    rng = ctx.rng
+    spec = gen.gen_dag(rng, n_nodes=(3, 6), p_default_edge=0.0, p_gen=0.0)
+    rt.reset_program()
+    base = build_program(spec).graph
+    names = [ns["name"] for ns in spec["nodes"]]
+    variants = [("full", base)]
+    for nm in rng.sample(names, min(len(names), rng.randint(2, 3))):
+        try:
+            variants.append((f"entry:{nm}", base.with_entrypoint(nm)))
+        except Exception:  # noqa: BLE001
+            pass
+    outs = list(base.outputs)
+    if outs:
+        variants.append((f"select:{outs[-1]}", base.select(outs[-1])))
+    rng.shuffle(variants)
+    kind = rng.choice(["sync", "async"])
+    shared = SyncRunner() if kind == "sync" else AsyncRunner()
+
+    def go(runner, g):
+        c = g.inputs
+        provided = {r: f"in:{r}" for r in list(c.required) + [p for ps in list(c.entrypoints.values())[:1] for p in ps]}
+        rec = rt.new_rec()
+        try:
+            res = runner.run(g, provided) if kind == "sync" else asyncio.run(runner.run(g, provided))
+            out = (res.status.value, res.values)
+        except Exception as e:  # noqa: BLE001
+            out = ("raised", type(e).__name__)
+        return out, sorted(e[1] for e in rec.ev if e[0] == "enter")
+
+    case = {"spec": spec, "order": [v[0] for v in variants], "runner": kind}
+    for label, g in variants:
+        got = go(shared, g)
+        fresh = go(SyncRunner() if kind == "sync" else AsyncRunner(), g)
+        ctx.obs["runs_checked"] += 1
+        ctx.obs["configuration_variant_runs"] += 1
+        if got != fresh:
+            ctx.violation("C18:state-leaked-into-run", f"{label} on a runner that already ran {[v[0] for v in variants[: variants.index((label, g))]]}: {core.short(got, 300)}; on a fresh runner: {core.short(fresh, 300)}", case)
+            break
+    ctx.case({"variants": sorted(v[0].split(":")[0] for v in variants), "s": gen.shape_of(spec), "r": kind}, len(variants) >= 3)
+
+
+def override_of_inner_binding(ctx, i):
+    """A mapping node whose inner graph binds a mutable value; the caller passes ITS OWN object for that input, equal
+    to the bound one or not. The caller's object is what the node receives and mutates; the bound object is untouched
+    and the next run that relies on the binding starts from it as it was."""
+    from hypergraph import AsyncRunner, FunctionNode, Graph, SyncRunner
+
+    rng = ctx.rng
+    rt.reset_program()
+    fid = "ovr/m"
+    fn = rt.make_function("m", fid, [{"n": "item"}, {"n": "acc"}])
+    rt.KIND[fid] = "fn"
+    rt.BEH[fid] = lambda kw: beh_mod.apply(["append_mut", "acc", "item"], kw)
+    bound = ["seed"] if rng.random() < 0.5 else []
+    inner = Graph([FunctionNode(fn, name="m", output_name="hist")], name="ovr").bind(acc=bound)
+    node = inner.as_node().map_over("item")
+    if rng.random() < 0.5:
+        node = node.with_inputs(acc="acc_ext")
+    g = Graph([node], name="outer")
+    key = "acc_ext" if "acc_ext" in g.inputs.all else "acc"
+    items = [f"it{j}" for j in range(rng.randint(1, 3))]
+    mine = list(bound) if rng.random() < 0.6 else ["mine"]
+    start = list(mine)
+    bound_before = list(bound)
+    runner_kind = rng.choice(["sync", "async"])
+    inputs = {"item": items, key: mine}
+    case = {"program": "mapping node, inner bind(acc=%r), caller passes %r" % (bound_before, start), "items": items, "runner": runner_kind}
+    try:
+        if runner_kind == "sync":
+            r = SyncRunner().run(g, inputs)
+        else:
+            r = asyncio.run(AsyncRunner().run(g, inputs))
+    except Exception as e:  # noqa: BLE001
+        ctx.violation("C18:run-failed", f"override of an inner binding through a mapping node raised {e!r}", case)
+        return
+    ctx.obs["runs_checked"] += 1
+    ctx.obs["override_runs"] += 1
+    exp = [tuple(start + items[: j + 1]) for j in range(len(items))]
+    if list(r.values.get("hist", [])) != exp:
+        ctx.violation("C18:provided-object-not-used", f"items saw {r.values.get('hist')!r}; with the caller's own object {start!r} they must see {exp!r}", case)
+    elif mine != start + items:
+        ctx.violation("C18:provided-object-not-used", f"the caller's object is {mine!r} after the run; the node mutates the object it was given, expected {start + items!r}", case)
+    elif bound != bound_before:
+        ctx.violation("C18:state-leaked-into-run", f"the value bound on the inner graph changed from {bound_before!r} to {bound!r} during a run that supplied its own object for that input", case)
+    ctx.case({"override": True, "equal": start == bound_before, "n": len(items), "r": runner_kind}, True)
+
+
 def run(ctx):
     n = 240 if ctx.tier == "quick" else 12000
     core.WARM_P = 0.0
@@ -309,7 +405,11 @@ def run(ctx):
         ctx.inconc("C18 replays are re-generated from the seed; re-run the tier with the recorded seed")
         return
     for i in range(n):
-        if i % 3 == 2:
+        if i % 12 == 7:
+            override_of_inner_binding(ctx, i)
+        elif i % 12 == 1:
+            entry_variants(ctx, i)
+        elif i % 3 == 2:
             concurrent_async(ctx, i)
         else:
             history(ctx, i)
